@@ -11,7 +11,7 @@ use darklua_core::verif as hooks;
 /// operators over a leaf the evaluator does not know: `not x` may well be `false`).
 /// `fixed`: 255 = the shape is symbolic below `shapes`; otherwise a constant of the call site
 /// (scenario trick: keeps the constructed variant concrete).
-fn operand<S: Source>(s: &mut S, slot: usize, shapes: u8, fixed: u8) -> (Expression, Child, u8) {
+fn draw<S: Source>(s: &mut S, shapes: u8, fixed: u8) -> (Child, u8) {
     let mut child = any_child(s);
     let shape = if fixed == 255 {
         let shape = s.any_u8();
@@ -31,7 +31,11 @@ fn operand<S: Source>(s: &mut S, slot: usize, shapes: u8, fixed: u8) -> (Express
         s.assume(!child.operand.known);
     }
     s.assume(realisable(child) && !child.effects_answer);
-    let expression = match shape {
+    (child, shape)
+}
+
+fn build(slot: usize, child: Child, shape: u8) -> Expression {
+    match shape {
         1 => {
             core::mem::forget(child_expression(slot, child));
             FunctionCall::from_name(SLOT_NAMES[slot]).into()
@@ -49,8 +53,12 @@ fn operand<S: Source>(s: &mut S, slot: usize, shapes: u8, fixed: u8) -> (Express
             .into()
         }
         _ => child_expression(slot, child),
-    };
-    (expression, child, shape)
+    }
+}
+
+fn operand<S: Source>(s: &mut S, slot: usize, shapes: u8, fixed: u8) -> (Expression, Child, u8) {
+    let (child, shape) = draw(s, shapes, fixed);
+    (build(slot, child, shape), child, shape)
 }
 
 /// Which original operand is `expression` (possibly parenthesised)?  Returns (slot, parenthesised).
@@ -137,11 +145,42 @@ pub fn if_branch_result_minus<S: Source>(s: &mut S) {
 pub fn if_branch_result_length<S: Source>(s: &mut S) {
     if_branch_with(s, 1, 5, 1)
 }
+/// `if a then a else e` and `if a() then a() else e`: condition and result are the same expression
+/// (the second evaluation of a call must not be merged with the first).
+pub fn if_branch_same_leaf<S: Source>(s: &mut S) {
+    if_branch_same(s, 0)
+}
+pub fn if_branch_same_call<S: Source>(s: &mut S) {
+    if_branch_same(s, 1)
+}
+fn if_branch_same<S: Source>(s: &mut S, shape: u8) {
+    let (child, _) = draw(s, 6, shape);
+    let condition = build(0, child, shape);
+    let result = build(0, child, shape);
+    let (else_result, _e, e_shape) = operand(s, 2, 1, 0);
+    check_branch(s, condition, result, else_result, [shape, shape, e_shape], child, shape, true);
+}
 fn if_branch_with<S: Source>(s: &mut S, condition_shapes: u8, result_shape: u8, else_shapes: u8) {
     let (condition, _c, c_shape) = operand(s, 0, condition_shapes, if condition_shapes == 1 { 0 } else { 255 });
     let (result, r, r_shape) = operand(s, 1, 6, result_shape);
     let (else_result, _e, e_shape) = operand(s, 2, else_shapes, if else_shapes == 1 { 0 } else { 255 });
-    let shapes = [c_shape, r_shape, e_shape];
+    check_branch(s, condition, result, else_result, [c_shape, r_shape, e_shape], r, result_shape, false);
+}
+#[allow(clippy::too_many_arguments)]
+fn check_branch<S: Source>(
+    s: &mut S,
+    condition: Expression,
+    result: Expression,
+    else_result: Expression,
+    shapes: [u8; 3],
+    r: Child,
+    result_shape: u8,
+    same: bool,
+) {
+    let (c_shape, r_shape, e_shape) = (shapes[0], shapes[1], shapes[2]);
+    let _ = c_shape;
+    // when condition and result are the same expression, both positions name slot 0
+    let result_slot = if same { 0 } else { 1 };
     let mut varargs = 0;
     for shape in shapes {
         if shape == 2 {
@@ -178,7 +217,7 @@ fn if_branch_with<S: Source>(s: &mut S, condition_shapes: u8, result_shape: u8, 
                 plain = and.operator() == BinaryOperator::And;
                 well_formed = plain
                     && identify(and.left(), shapes) == (0, false)
-                    && identify(and.right(), shapes) == (1, false)
+                    && identify(and.right(), shapes) == (result_slot, false)
                     && identify(or.right(), shapes) == (2, false);
             }
         }
@@ -189,13 +228,13 @@ fn if_branch_with<S: Source>(s: &mut S, condition_shapes: u8, result_shape: u8, 
                 if let Expression::Binary(or) = parenthese.inner_expression() {
                     if let (Expression::Binary(and), Some(else_value)) = (or.left(), single_table_value(or.right())) {
                         if let Some(result_value) = single_table_value(and.right()) {
-                            let (result_slot, result_parenthesised) = identify(result_value, shapes);
+                            let (result_slot_found, result_parenthesised) = identify(result_value, shapes);
                             let (else_slot, else_parenthesised) = identify(else_value, shapes);
                             well_formed = one
                                 && or.operator() == BinaryOperator::Or
                                 && and.operator() == BinaryOperator::And
                                 && identify(and.left(), shapes) == (0, false)
-                                && result_slot == 1
+                                && result_slot_found == result_slot
                                 && else_slot == 2;
                             multi_values_kept_single = ((r_shape != 1 && r_shape != 2) || result_parenthesised)
                                 && ((e_shape != 1 && e_shape != 2) || else_parenthesised);
@@ -245,6 +284,8 @@ if_branch_proof!(c06_if_branch_result_varargs, if_branch_result_varargs);
 if_branch_proof!(c06_if_branch_result_not, if_branch_result_not);
 if_branch_proof!(c06_if_branch_result_minus, if_branch_result_minus);
 if_branch_proof!(c06_if_branch_result_length, if_branch_result_length);
+if_branch_proof!(c06_if_branch_same_leaf, if_branch_same_leaf);
+if_branch_proof!(c06_if_branch_same_call, if_branch_same_call);
 
 // ------------------------------------------------------------------------------------------------
 // the whole per-expression step on an elseif chain
